@@ -21,6 +21,10 @@ RULES = {
     "C05.4": "a consuming read_next moves the cursor only past an entry it delivers (= C01.1's read_next clause): every checkpoint-guarded commit of the cursor offset is derived from "
              "the size consumed by the read that precedes it and is followed by the return of that entry. A commit that skips what could not be read loses entries that a concurrent "
              "batch append has planned and published but not yet written",
+    "C05.5": "appenders of one topic are serialised from planning to publish: in Writer::write and Writer::batch_write the guards of current_block and current_offset that were taken "
+             "before planning are still held when the entries are written and when the offset is published - no storage write (Block::write, the io_uring helper) and no store "
+             "to the offset is reachable from a point where such a guard has been released (mem::drop or scope end). `is_batch_writing` alone does not exclude an appender that "
+             "tested the flag before the batch set it and is waiting on the mutex",
 }
 
 
@@ -271,6 +275,49 @@ def check_writer_types(ctx, facts):
             ctx.violate("C05.3", "writer::Writer", "unsynchronised-field:" + n, "src/wal/runtime/writer.rs", None, "Writer.%s: %s bypasses the mutexes" % (n, ty))
 
 
+def check_writer_guards_held(ctx, facts):
+    n = 0
+    for fn in ("writer::Writer::write", "writer::Writer::batch_write"):
+        b = facts.body(fn)
+        ctx.saw_body(b)
+        F = common.short_fn(b.name)
+        guards = [l for l, ld in enumerate(b.locals) if re.search(r"MutexGuard<'_, (u64|wal::block::Block)>$", ld["ty"]) and l > b.arg_count]
+        if not guards:
+            ctx.anchor_missing("C05.5", "MutexGuard locals of current_block / current_offset in " + F)
+            continue
+        writes = b.calls(re.compile(r"block::Block::write$|Writer::submit_batch_via_io_uring$"))
+        if not writes:
+            ctx.anchor_missing("C05.5", "storage writes in " + F)
+            continue
+        for g in guards:
+            # release points of g: mem::drop(move g) and Drop terminators of g
+            rel = []
+            for c in b.calls(re.compile(r"mem::drop$")):
+                if op_local(c.node["args"][0]) == g:
+                    rel.append((c.bb, c.line))
+            for bb in sorted(b.live_blocks):
+                t = b.term(bb)
+                if t["k"] == "drop" and t.get("place", {}).get("l") == g and not t.get("place", {}).get("p"):
+                    rel.append((bb, t.get("line")))
+            n += 1
+            bad = None
+            for rbb, line in rel:
+                after = b.reachable_after(rbb)
+                w = [x for x in writes if x.bb in after]
+                if w:
+                    bad = (line, w[0].line)
+                    break
+            what = "current_offset" if "u64" in b.local_ty(g) else "current_block"
+            if bad:
+                ctx.violate("C05.5", F, "writer-guard-released-before-io:" + what, b.relfile, bad[0],
+                            "the %s guard taken before planning is released (line %s) while entries are still to be written (line %s): a single append that passed the "
+                            "is_batch_writing test earlier and was waiting on the mutex now writes at the offset this batch planned for, and one of the two is lost"
+                            % (what, bad[0], bad[1]))
+            else:
+                ctx.ok("C05.5", F, "the %s guard is held until after the last storage write" % what, b.relfile, b.line)
+    ctx.floor("C05.5", "writer guards checked", n, 4)
+
+
 def run(ctx):
     for k, v in RULES.items():
         ctx.rule(k, v)
@@ -280,6 +327,7 @@ def run(ctx):
     from .c01 import check_read_next_commit
     check_read_next_commit(ctx, facts, rid="C05.4")
     check_writer_types(ctx, facts)
+    check_writer_guards_held(ctx, facts)
     ctx.assume("schedules are not enumerated: the check decides the absence of the atomicity-violation shapes that make duplicate delivery possible; ordering between producers, "
                "the stale pre-lock writer snapshot in the batch path and fairness are NOT decided")
     ctx.assume("C05.1 treats distinct MIR locals as distinct acquisitions; a value carried across loop iterations under re-acquisitions of the same local is not tracked")
